@@ -44,6 +44,33 @@ def clock(t):
 # ---------------------------------------------------------------------------
 # serialization paths
 # ---------------------------------------------------------------------------
+_COLLECTED = []
+
+
+def _collect_stale(base, fresh):
+  """Once per process: removes directories that killed workers (shrink jobs
+  are stopped with SIGKILL at their time cap) left behind more than 30 min
+  ago.  "Now" is the mtime of the directory just created (time.time may be
+  patched)."""
+  if _COLLECTED:
+    return
+  _COLLECTED.append(True)
+  import os
+  import shutil
+  try:
+    now = os.stat(fresh).st_mtime
+    for d in os.listdir(base):
+      full = os.path.join(base, d)
+      if d.startswith('verif-c13-') and full != fresh:
+        try:
+          if now - os.stat(full).st_mtime > 1800:
+            shutil.rmtree(full, ignore_errors=True)
+        except OSError:
+          pass
+  except OSError:
+    pass
+
+
 class DbFiles:
   """Per-case directory for SQLite files.
 
@@ -61,6 +88,7 @@ class DbFiles:
       import tempfile
       base = '/dev/shm' if os.access('/dev/shm', os.W_OK) else None
       self.dir = tempfile.mkdtemp(prefix='verif-c13-', dir=base)
+      _collect_stale(os.path.dirname(self.dir), self.dir)
     import os
     return os.path.join(self.dir, name)
 
